@@ -506,7 +506,7 @@ func (x *Exec) finish(st *State, res Val, pos token.Pos) {
 const basePrelude = `(set-option :smt.mbqi false)
 (declare-datatypes ((Slice 0)) (((mkslice (sarr Int) (soff Int) (slen Int) (scap Int)))))
 (define-fun nilslice () Slice (mkslice 0 0 0 0))
-(define-fun wfslice ((s Slice)) Bool (and (>= (sarr s) 0) (>= (soff s) 0) (>= (slen s) 0) (<= (slen s) (scap s)) (=> (= (sarr s) 0) (and (= (soff s) 0) (= (scap s) 0)))))
+(define-fun wfslice ((s Slice)) Bool (and (>= (sarr s) 0) (>= (soff s) 0) (>= (slen s) 0) (<= (slen s) (scap s)) (<= (+ (soff s) (scap s)) 281474976710656) (=> (= (sarr s) 0) (and (= (soff s) 0) (= (scap s) 0)))))
 (declare-fun birth (Int) Int)
 (declare-fun tagof (Int) Int)
 (declare-fun strlen (Int) Int)
